@@ -30,7 +30,7 @@ Proof.
         destruct (digits ip); [congruence|]. rewrite Hr. reflexivity.
       + cbn [app parse_set_items]. rewrite Ht.
         pose proof (parse_number_print ip (d :: fp') Hf) as Hp. cbn beta iota in Hp. rewrite Hp. reflexivity.
-    - cbn [setval_toks app parse_set_items]. rewrite Ht. reflexivity. }
+    - cbn [setval_toks app parse_set_items]. rewrite Ht. destruct s; [discriminate | reflexivity]. }
   destruct vs as [|v2 vs'].
   - cbn [set_items_toks]. apply Hone. reflexivity.
   - change (set_items_toks (v :: v2 :: vs')) with (setval_toks v ++ TComma :: set_items_toks (v2 :: vs')).
